@@ -398,7 +398,8 @@ def expand_chunk(hists):
         good, bad = m.enabled()
         for ev in good:
             h2 = tuple(h) + (ev,)
-            st2, m2, im2, info2 = replay_history(h2, check_every=False)
+            # observed after every step: a lookup is an event too (it may fill a cache that a later definition must invalidate)
+            st2, m2, im2, info2 = replay_history(h2, check_every=True)
             rep.traces += 1
             npops = sum(1 for e in h2 if e[0].startswith('pop'))
             if st2 != 'ok':
